@@ -648,6 +648,16 @@ func (s *SSEServer) handleMessage(w http.ResponseWriter, r *http.Request) {
 	// Create context with session.
 	ctx = s.createSessionContext(ctx, session)
 
+	// A message with an ID but no method is a response only if it carries a result or an error.
+	if base.ID != nil && base.Method == "" {
+		var envelope jsonRPCEnvelope
+		if err := json.Unmarshal(rawMessage, &envelope); err != nil || (envelope.Result == nil && envelope.Error == nil) {
+			s.logger.Errorf("Invalid JSON-RPC message: ID without method, result or error")
+			s.writeJSONRPCError(w, base.ID, ErrCodeInvalidRequest, "Invalid JSON-RPC message format")
+			return
+		}
+	}
+
 	// Immediately return HTTP 202 Accepted status code, indicating request has been received.
 	w.WriteHeader(http.StatusAccepted)
 
